@@ -52,6 +52,9 @@ def counting_cls():
     return _Counting
 
 
+_CALLS = [0]
+
+
 def trace(data: Any, opts: Dict[str, bool], n_hint: int, counting: bool = False) -> Tuple[list, int]:
     """Token trace of one delivery: [(token, value, line_num)...] ending in EOF x4 or an error record."""
     from srctools.tokenizer import Tokenizer, Token, TokenSyntaxError
@@ -60,6 +63,15 @@ def trace(data: Any, opts: Dict[str, bool], n_hint: int, counting: bool = False)
     eof = Token.EOF
     limit = n_hint + 8
     tok = None
+    _CALLS[0] += 1
+    if _CALLS[0] % 3 == 0:
+        # an unrelated tokenizer object dropped with a pending look-ahead token just before: the trace below must not see it
+        try:
+            stray = Tokenizer('{ x }')
+            stray.push_back(*stray())
+            del stray
+        except Exception:
+            pass
     try:
         tok = cls(data, **opts)
         for _ in range(limit):
